@@ -19,14 +19,17 @@ CLAIMS = {
        "the specification (rpfc_locate_spec/rpfc_extract_spec, rpdac_*_spec, fm_*_spec, each for every object certified by its verified "
        "checker); (4) XBW: over the arrays dumped from the loaded object, certified by the verified checker xbw_check against the trie computed "
        "in Coq from S, locate (every pattern, incl. the empty one) and extract (every id) equal the specification over the explicit ID order "
-       "(reversed-string order) and are mutually inverse (C01_xbw_member_round_trip, C01_xbw_id_round_trip); (5) the abstract specification "
+       "(reversed-string order) and are mutually inverse (C01_xbw_member_round_trip, C01_xbw_id_round_trip); (5) HTFC: the bit-exact model of "
+       "the LOADED object (chunked decoding table, decodeString protocol, encoded-header binary search) answers extract / locate like the "
+       "specification for every object certified by the verified checkers htfc_check / htfc_check2 (C01_htfc_extract_spec, C02_htfc_locate_spec, "
+       "C01_htfc_roundtrip); (6) the abstract specification "
        "itself is a bijection [1,n] <-> S. Tie: all 13 kinds x parameters x "
        "{fresh, reloaded} compared with the extracted specification on every id and member; PFC additionally at layout level "
        "(text bytes, offsets) and query level against the extracted concrete model.",
   note="PFC is proved from the constructor on; RPFC, RPDAC, FMINDEX, HASHRPDAC, HASHRPF, Blocks are proved for every object whose dumped "
        "state passes a verified checker (the constructors' Re-Pair / suffix-sorting choices are validated per instance, not verified); "
-       "XBW likewise (wavelet tree / RRR bitmaps as plain lists); HTFC/HHTFC/RPHTFC/HASHHF/HASHUFFDAC (chunked decoding table) are tied to "
-       "the specification by correspondence only. "
+       "XBW and HTFC likewise (XBW over plain-list bitmaps; HTFC rejects objects with an in-bucket shared prefix that is a multiple of 128: recorded "
+       "finding); HHTFC/RPHTFC/HASHHF/HASHUFFDAC are tied to the specification by correspondence only. "
        "RPFC theorems need strings shorter than 2^14 (the real code breaks on 3-byte VBytes: recorded defect). Known findings: known_findings.json.",
   technique="Coq proof (induction over the string list / bucket scan invariants) + extracted-model/implementation correspondence"),
  "C02": dict(
@@ -38,7 +41,7 @@ CLAIMS = {
        "(C02_xbw_absent, C02_xbw_bad_id). Tie: all 13 "
        "kinds on boundary-directed absent queries (proof-directed splice family aimed at the scan's case split) and bad ids, each query in "
        "its own ASan process with an exact-size pattern buffer.",
-  note="Bounds safety is a theorem for the PFC, RPFC, RPDAC, FM, XBW and hashing models (checked reads); for the Hu-Tucker/Huffman kinds the ASan verdict of the explored queries is supporting "
+  note="Bounds safety is a theorem for the PFC, RPFC, RPDAC, FM, XBW, HTFC and hashing models (checked reads); for the Hu-Tucker/Huffman kinds the ASan verdict of the explored queries is supporting "
        "evidence, not a proof.",
   technique="Coq proof (checked-read model: out-of-bounds is an unreachable outcome) + correspondence under ASan"),
  "C03": dict(
@@ -51,7 +54,7 @@ CLAIMS = {
  "C04": dict(
   text="Coq theorems: the byte-exact PFC model of locateBoundaryBuckets (three binary searches), searchPrefix, searchDistinctPrefix, "
        "locatePrefix, IteratorDictIDContiguous and extractPrefix returns exactly range_of (spec_prefix_ids S p) / the matching strings for "
-       "EVERY valid set, bucket size and non-empty pattern (the empty pattern: correspondence, theorem in progress), (0,0) and a null iterator when nothing matches, with no read outside the "
+       "EVERY valid set, bucket size and pattern, the empty one included (C04_pfc_locate_prefix_every_pattern), (0,0) and a null iterator when nothing matches, with no read outside the "
        "dictionary (pfc_locate_prefix_spec, pfc_locate_prefix_ids, pfc_extract_prefix_spec); RPDAC: the three binary searches over "
        "compare-while-expanding on the grammar equal the specification (rpdac_locate_prefix_spec, over any well-formed grammar); FM-index: "
        "the interval of \\1 p shifted by the separator-rotated mapping equals the specification (fm_locatePrefix_spec, over any BWT passing "
@@ -59,7 +62,7 @@ CLAIMS = {
        "interval handed to both prefix iterators is the sibling block below the pattern's node (C04_xbw_subPathSearch, "
        "C04_xbw_prefix_iterator_range; the BFS streams themselves: correspondence); specification: matching IDs of a sorted set are one contiguous ascending duplicate-free range. Tie: the "
        "eight prefix-capable kinds against the extracted specification on boundary-directed patterns; PFC also against the concrete model.",
-  note="HTFC/HHTFC/RPHTFC copies of the PFC algorithm are tied by correspondence only; RPFC has its own bit-exact model. The empty pattern is answered wrongly by RPDAC/FMINDEX/XBW (known finding empty-search-pattern). RPDAC and FM theorems are conditional on "
+  note="HHTFC/RPHTFC copies of the PFC algorithm are tied by correspondence only; RPFC and HTFC have their own bit-exact models (C04_htfc_locate_prefix_spec: masked memcmp on encoded headers = prefix classification). The empty pattern is answered wrongly by RPDAC/FMINDEX/XBW (known finding empty-search-pattern). RPDAC and FM theorems are conditional on "
        "per-instance validated artefacts (grammar / BWT produced by the real constructors, checked by verified checkers in C20 / C05 runs).",
   technique="Coq proof (binary-search and scan invariants) + extracted-model/implementation correspondence"),
  "C05": dict(
@@ -113,9 +116,13 @@ CLAIMS = {
        "(1<<k)-1 mask incl. k = 31, binary search + word + bit scan of select) equals the plain definitions for EVERY bit vector "
        "(n < 2^32-64) and factor >= 1: rank1, rank0, access, select1, select0 with their out-of-range answers, no out-of-bounds read, "
        "save/load round trip (C19_rg_*); pointer wavelet tree access/rank/select equal the sequence definitions over any bitmap meeting the "
-       "plain laws and any symbol-separating code, instantiated with the RG model. Tie: real RG/RRR/SDArray/DArray bitmaps and "
-       "WaveletTree/WaveletTreeNoptrs sequences vs the plain definitions, RG also at layout level (Rs, data, image bytes).",
-  note="RRR, SDArray, DArray, WaveletTreeNoptrs: no concrete model (Tier C, partial). Huffman shape validated per instance. Known findings: "
+       "plain laws and any symbol-separating code, instantiated with the RG model and with the RRR model; a word-exact model of "
+       "BitSequenceRRR and its offset table (class/offset encoding, sampling, the byte view of C in rank1, binary-search select) equals the "
+       "plain definitions for every bit vector 1 <= n < 2^32 and every sample rate, with no out-of-bounds access (C19_rrr_*; the pre-fix "
+       "allocation and a seeded sampling change are refuted). Tie: real RG/RRR/SDArray/DArray bitmaps and "
+       "WaveletTree/WaveletTreeNoptrs sequences vs the plain definitions, RG and RRR also at layout level (Rs, data / C, O, samplings, image bytes); "
+       "two wavelet trees side by side.",
+  note="SDArray, DArray, WaveletTreeNoptrs: no concrete model (Tier C, partial). Huffman shape validated per instance. Known findings: "
        "BitSequenceDArray without ones, WaveletTreeNoptrs over the single symbol 0.",
   technique="Coq proof (induction on superblocks / tree) + correspondence"),
  "C08": dict(
